@@ -234,6 +234,70 @@ def _extend_form(s, counter):
     return loop
 
 
+def _bulk_form(s, used_outside, counter):
+    """`X.update({k: v for ...})` -> nested loops doing `X[k] = v`;
+    `X.extend([e for ...])` / `X.extend(e for ...)` -> nested loops doing
+    `X.append(e)`.  The bulk call adds the same items in the same order; X must
+    not be read by the comprehension."""
+    if not (isinstance(s, ast.Expr) and isinstance(s.value, ast.Call)):
+        return None
+    c = s.value
+    if not (isinstance(c.func, ast.Attribute) and len(c.args) == 1 and
+            not c.keywords and
+            isinstance(c.func.value, (ast.Name, ast.Attribute))):
+        return None
+    comp = c.args[0]
+    if c.func.attr == "update" and isinstance(comp, ast.DictComp):
+        kind = "update"
+    elif c.func.attr == "extend" and isinstance(comp, (ast.ListComp,
+                                                      ast.GeneratorExp)):
+        kind = "extend"
+    else:
+        return None
+    if any(g.is_async for g in comp.generators):
+        return None
+    if any(isinstance(n, (ast.Lambda, ast.NamedExpr, ast.Yield, ast.Await))
+           for n in ast.walk(comp)):
+        return None
+    xt = unparse(c.func.value)
+    root = xt.split(".")[0]
+    if any(isinstance(n, ast.Name) and n.id == root and xt.count(".") == 0
+           for n in ast.walk(comp)) or xt in unparse(comp):
+        return None
+    mp = {}
+    for g in comp.generators:
+        for nm in _target_names(g.target):
+            if nm in used_outside:
+                counter[0] += 1
+                mp[nm] = "%s__c%d" % (nm, counter[0])
+    comp = copy.deepcopy(comp)
+    if mp:
+        first = comp.generators[0].iter
+        comp = _Ren(mp).visit(comp)
+        comp.generators[0].iter = first
+    if kind == "update":
+        body = [ast.Assign(targets=[ast.Subscript(
+            value=copy.deepcopy(c.func.value), slice=comp.key,
+            ctx=ast.Store())], value=comp.value, lineno=s.lineno)]
+    else:
+        body = [ast.Expr(value=ast.Call(
+            func=ast.Attribute(value=copy.deepcopy(c.func.value),
+                               attr="append", ctx=ast.Load()),
+            args=[comp.elt], keywords=[]))]
+    for g in reversed(comp.generators):
+        for cond in reversed(g.ifs):
+            body = [ast.If(test=cond, body=body, orelse=[])]
+        body = [ast.For(target=g.target, iter=g.iter, body=body, orelse=[])]
+        _store(g.target)
+    loop = body[0]
+    ast.copy_location(loop, s)
+    for sub_ in ast.walk(loop):
+        if isinstance(sub_, (ast.expr, ast.stmt)) and not hasattr(sub_, "lineno"):
+            ast.copy_location(sub_, s)
+    ast.fix_missing_locations(loop)
+    return loop
+
+
 def desugar_function(fn):
     counter = [0]
     done = [0]
@@ -277,6 +341,15 @@ def desugar_function(fn):
             if ef is not None:
                 s = ef
                 done[0] += 1
+            if isinstance(s, ast.Expr):
+                inside = {id(n) for n in ast.walk(s)}
+                used = {n.id for n in ast.walk(fn) if isinstance(n, ast.Name)
+                        and id(n) not in inside}
+                used |= {a.arg for a in ast.walk(fn) if isinstance(a, ast.arg)}
+                bf = _bulk_form(s, used, counter)
+                if bf is not None:
+                    s = bf
+                    done[0] += 1
             if _eligible(s):
                 inside = {id(n) for n in ast.walk(s.value)}
                 used = {n.id for n in ast.walk(fn) if isinstance(n, ast.Name)
